@@ -8,7 +8,8 @@ package main
 //   []byte            (4 #hex)
 //   string            (5 #hex)        the bytes of the Go string (all types but UNITEXT)
 //   string (UNITEXT)  (6 $cp.cp...)   the code points of the Go string ([]rune conversion)
-//   *Decimal          (7 precision scale (unscaled))   or (7 precision scale ()) for a Decimal without a big.Int
+//   *Decimal          (7 precision scale (unscaled));  a Decimal without a big.Int (the library's NULL of MONEYN/DECN/NUMN)
+//                     is printed as NULL () when GoValue returns it and written (7 precision scale ()) as an INPUT of Bytes
 //   time.Time         (8 Y M D h m s ns)   in UTC
 // Outcomes: (0 x) ok, (2) error, (-1) panic.
 
@@ -216,8 +217,8 @@ func canon(t asetypes.DataType, x interface{}) sx.T {
 		if y == nil {
 			return sx.L{sx.I(-998)}
 		}
-		if y.String() == "<nil>" { // Decimal without a big.Int
-			return vDec(y.Precision, y.Scale, nil).tree()
+		if y.String() == "<nil>" { // Decimal without a big.Int: the library's NULL of MONEYN/DECN/NUMN
+			return sx.L{}
 		}
 		return vDec(y.Precision, y.Scale, y.Int()).tree()
 	case time.Time:
